@@ -54,7 +54,26 @@ def py_front_end():
             lists[n.targets[0].id] = [e.id for e in n.value.elts]
         if isinstance(n, ast.Call) and getattr(n.func, 'id', None) == 'notNone' and n.args and isinstance(n.args[0], ast.List):
             inline.append([e.id for e in n.args[0].elts])
+    # anonymous collections of argument names (a tuple inside a comprehension, an argument of a helper): candidates by content
+    params = {a.arg for a in init.args.args}
+    k = 0
+    for n in ast.walk(init):
+        if isinstance(n, (ast.List, ast.Tuple)) and len(n.elts) >= 3 and all(isinstance(e, ast.Name) and e.id in params for e in n.elts):
+            names = [e.id for e in n.elts]
+            if names not in lists.values():
+                lists['@%d' % k] = names
+                k += 1
     return init, lists, inline
+
+
+def _py_class(lists, pyname, cs):
+    """the Python collection that plays the role of a C counter: by its name, else the collection sharing most names with the C set"""
+    if pyname in lists:
+        return lists[pyname]
+    best = max(lists.values(), key=lambda v: len(set(v) & cs) / float(len(set(v) | cs)), default=None)
+    if best is not None and len(set(best) & cs) * 2 >= len(cs):
+        return best
+    return None
 
 
 def rule_argument_classes(ctx):
@@ -64,9 +83,10 @@ def rule_argument_classes(ctx):
     samples = []
     for K, pyname in COUNTER_TO_PY.items():
         anchor(K in csets, 'C counter ' + K)
-        anchor(pyname in lists, 'Python list ' + pyname)
         cs = {('primary' if v == 'primary_given' else v) for v in csets[K]}
-        ps = set(lists[pyname])
+        pl = _py_class(lists, pyname, cs)
+        anchor(pl is not None, 'Python collection of argument names for ' + pyname)
+        ps = set(pl)
         n += len(cs | ps)
         if cs != ps:
             ctx.report('R11.1', 'class:' + K, 'src/tools.c reb_particle_from_fmt_errV / rebound/particle.py Particle.__init__',
@@ -127,6 +147,23 @@ def rule_error_codes(ctx, errs):
         if isinstance(x, ast.If) and isinstance(x.test, ast.Compare) and ast.unparse(x.test.left) == 'err.value' and isinstance(x.test.comparators[0], ast.Constant):
             if any(isinstance(y, ast.Raise) for y in ast.walk(x)):
                 pyh.add(x.test.comparators[0].value)
+    # the same mapping kept as a table: D.get(err.value) / D[err.value] with D a module-level dict of int -> message, and a raise
+    db_ = pyfront.pydb()
+    mod = db_.files[db_.classes['Particle'].path]
+    tables = {}
+    for st in mod.body:
+        if isinstance(st, ast.Assign) and len(st.targets) == 1 and isinstance(st.targets[0], ast.Name) and isinstance(st.value, ast.Dict):
+            ks = [k_.value for k_ in st.value.keys if isinstance(k_, ast.Constant) and isinstance(k_.value, int)]
+            if ks and len(ks) == len(st.value.keys):
+                tables[st.targets[0].id] = set(ks)
+    for x in ast.walk(init):
+        tname = None
+        if isinstance(x, ast.Call) and isinstance(x.func, ast.Attribute) and x.func.attr == 'get' and isinstance(x.func.value, ast.Name) and x.args and ast.unparse(x.args[0]) == 'err.value':
+            tname = x.func.value.id
+        if isinstance(x, ast.Subscript) and isinstance(x.value, ast.Name) and ast.unparse(x.slice) == 'err.value':
+            tname = x.value.id
+        if tname in tables and any(isinstance(y, ast.Raise) for y in ast.walk(init)):
+            pyh |= tables[tname]
     for code in sorted(set(oerrs)):
         n += 1
         if code not in pyh:
@@ -336,10 +373,41 @@ def rule_defaults(ctx):
             for s in ifs.body:
                 if isinstance(s, ast.Assign) and isinstance(s.targets[0], ast.Name) and s.targets[0].id == ifs.test.left.id and isinstance(s.value, ast.Constant) and s.value.value == 0:
                     pdef[ifs.test.left.id] = 0
+    def _is_zero(e):
+        return isinstance(e, ast.Constant) and e.value == 0
+
+    def _default_of(e, var):
+        """`0 if var is None else var` (either orientation)"""
+        if isinstance(e, ast.IfExp) and isinstance(e.test, ast.Compare) and isinstance(e.test.left, ast.Name) and e.test.left.id == var and isinstance(e.test.comparators[0], ast.Constant) and e.test.comparators[0].value is None:
+            if isinstance(e.test.ops[0], ast.Is) and _is_zero(e.body) and isinstance(e.orelse, ast.Name) and e.orelse.id == var:
+                return True
+            if isinstance(e.test.ops[0], ast.IsNot) and _is_zero(e.orelse) and isinstance(e.body, ast.Name) and e.body.id == var:
+                return True
+        return False
+    opaque = set()
+    for a_ in ast.walk(init):
+        if not isinstance(a_, ast.Assign) or len(a_.targets) != 1:
+            continue
+        t_, v_ = a_.targets[0], a_.value
+        if isinstance(t_, ast.Name) and _default_of(v_, t_.id):
+            pdef[t_.id] = 0
+        elif isinstance(t_, ast.Tuple) and all(isinstance(x, ast.Name) for x in t_.elts):
+            tn = [x.id for x in t_.elts]
+            if isinstance(v_, (ast.ListComp, ast.GeneratorExp)) and len(v_.generators) == 1 and isinstance(v_.generators[0].target, ast.Name) \
+                    and isinstance(v_.generators[0].iter, (ast.Tuple, ast.List)) and [getattr(x, 'id', None) for x in v_.generators[0].iter.elts] == tn \
+                    and _default_of(v_.elt, v_.generators[0].target.id):
+                for x in tn:
+                    pdef[x] = 0
+            else:
+                opaque |= set(tn)
+        elif isinstance(t_, ast.Name) and any(isinstance(y, (ast.IfExp, ast.ListComp, ast.Call)) for y in ast.walk(v_)) and any(isinstance(y, ast.Name) and y.id == t_.id for y in ast.walk(v_)):
+            opaque.add(t_.id)
     n = 0
     names = ['e', 'inc', 'Omega', 'l', 'h', 'k', 'ix', 'iy']
     for v in names:
         n += 1
+        if (v in cdef) and (v not in pdef) and v in opaque:
+            raise AnalysisError('R11.3: Python assigns %s from an expression of itself that is not one of the known defaulting idioms - cannot decide whether it defaults to 0' % v)
         if (v in cdef) != (v in pdef):
             ctx.report('R11.3', 'default:' + v, 'src/tools.c reb_particle_from_fmt_errV / rebound/particle.py Particle.__init__',
                        'element %s defaults to 0 in %s but not in %s' % (v, 'C' if v in cdef else 'Python', 'Python' if v in cdef else 'C'))
